@@ -137,7 +137,13 @@ func (sc *Scenario) Run() *Outcome {
 	served := make(chan error, 1)
 	serving := needsServe(sc.Calls)
 	if serving {
-		go func() { served <- x.S.Serve(h) }()
+		go func() {
+			var err error
+			if p := hx.Catch(func() { err = x.S.Serve(h) }); p != "" {
+				err = fmt.Errorf("panic in Serve: %s", p)
+			}
+			served <- err
+		}()
 	}
 	doReply := func(i int, c *Call) {
 		m := fmt.Sprintf("r%d", i)
@@ -150,7 +156,7 @@ func (sc *Scenario) Run() *Outcome {
 		}
 		// the reply is complete (flushed, lock released) when Serve begins its
 		// next iteration after the handler has returned
-		deadline := time.Now().Add(3 * time.Second)
+		deadline := time.Now().Add(15 * time.Second)
 		for {
 			h.mu.Lock()
 			res, ok := h.res[m]
@@ -177,7 +183,7 @@ func (sc *Scenario) Run() *Outcome {
 		}
 		var res []string
 		var p string
-		ok := hx.WithTimeout(5*time.Second, func() { res, p = tg.Exec(c) })
+		ok := hx.WithTimeout(15*time.Second, func() { res, p = tg.Exec(c) })
 		switch {
 		case !ok:
 			o.Problems = append(o.Problems, Problem{"stuck", i, "call did not return"})
@@ -211,7 +217,7 @@ func (sc *Scenario) Run() *Outcome {
 			park := sc.Park
 			TheGate.Block(park)
 			start(0)
-			if TheGate.WaitParked(park, 1, 2*time.Second) {
+			if TheGate.WaitParked(park, 1, 5*time.Second) {
 				for i := 1; i < len(sc.Calls); i++ {
 					start(i)
 				}
@@ -235,7 +241,7 @@ func (sc *Scenario) Run() *Outcome {
 				start(i)
 			}
 		}
-		if !hx.WithTimeout(10*time.Second, wg.Wait) {
+		if !hx.WithTimeout(30*time.Second, wg.Wait) {
 			o.Problems = append(o.Problems, Problem{"stuck", -1, "concurrent calls did not all return"})
 		}
 		TheGate.UnblockAll()
@@ -244,10 +250,14 @@ func (sc *Scenario) Run() *Outcome {
 	o.checkFlushed(sc)
 	// drain what a call may have left unflushed (reported above) so that the
 	// peer-side parse sees whole elements
-	hx.WithTimeout(2*time.Second, func() {
-		w := x.S.TokenWriter()
-		w.Flush()
-		w.Close()
+	hx.WithTimeout(10*time.Second, func() {
+		if p := hx.Catch(func() {
+			w := x.S.TokenWriter()
+			w.Flush()
+			w.Close()
+		}); p != "" {
+			o.Problems = append(o.Problems, Problem{"panic", -1, "flushing the session after the calls: " + p})
+		}
 	})
 	o.Wire = x.P.WaitQuiet(time.Millisecond, 200*time.Millisecond)
 	if serving && !o.ServeEnd {
@@ -255,7 +265,7 @@ func (sc *Scenario) Run() *Outcome {
 		select {
 		case e := <-served:
 			o.Serve, o.ServeEnd = e, true
-		case <-time.After(3 * time.Second):
+		case <-time.After(15 * time.Second):
 			o.Problems = append(o.Problems, Problem{"stuck", -1, "Serve did not return after the connection was closed"})
 		}
 	}
